@@ -363,7 +363,7 @@ func (d *DFA) searchFirstAt(cache *DFACache, haystack []byte, startPos int) int 
 
 	startState := d.getStartStateForUnanchored(cache, haystack, startPos)
 	if startState == nil {
-		return d.nfaFallback(haystack, startPos)
+		return d.nfaFallbackFirst(haystack, startPos)
 	}
 
 	// With 1-byte match delay, start states are never match states.
@@ -449,7 +449,7 @@ func (d *DFA) searchFirstAt(cache *DFACache, haystack []byte, startPos int) int 
 				pos = candidate
 				newStart := d.getStartStateForUnanchored(cache, haystack, pos)
 				if newStart == nil {
-					return d.nfaFallback(haystack, startPos)
+					return d.nfaFallbackFirst(haystack, startPos)
 				}
 				sid = newStart.id
 				ft = cache.flatTrans
@@ -479,11 +479,11 @@ func (d *DFA) searchFirstAt(cache *DFACache, haystack []byte, startPos int) int 
 		case InvalidState:
 			currentState := cache.getState(sid)
 			if currentState == nil {
-				return d.nfaFallback(haystack, startPos)
+				return d.nfaFallbackFirst(haystack, startPos)
 			}
 			nextState, err := d.determinize(cache, currentState, haystack[pos])
 			if err != nil {
-				return d.nfaFallback(haystack, startPos)
+				return d.nfaFallbackFirst(haystack, startPos)
 			}
 			if nextState == nil {
 				return lastMatch
@@ -514,6 +514,32 @@ func (d *DFA) searchFirstAt(cache *DFACache, haystack []byte, startPos int) int 
 	}
 
 	return lastMatch
+}
+
+// nfaFallbackFirst is the fallback of searchFirstAt, which reports the EARLIEST
+// position at which a match ends. The PikeVM search reports the end of the
+// leftmost-first match instead, so run the subset construction of the DFA
+// (nfaStep) without caching the states: same answers, O(n*m) time.
+func (d *DFA) nfaFallbackFirst(haystack []byte, startPos int) int {
+	builder := NewBuilderWithWordBoundary(d.nfa, d.config, d.hasWordBoundary)
+	kind := StartText
+	if startPos > 0 {
+		kind = d.startByteMap[haystack[startPos-1]]
+	}
+	states := builder.epsilonClosure([]nfa.StateID{d.nfa.StartUnanchored()}, LookSetFromStartKind(kind))
+	isFromWord := kind == StartWord
+
+	for pos := startPos; pos < len(haystack) && len(states) > 0; pos++ {
+		next, sourceHasMatch := d.nfaStep(builder, states, isFromWord, haystack[pos])
+		if sourceHasMatch {
+			return pos
+		}
+		states, isFromWord = next, isWordByte(haystack[pos])
+	}
+	if len(states) > 0 && builder.CheckEOIMatch(states, isFromWord) {
+		return len(haystack)
+	}
+	return -1
 }
 
 // IsMatch returns true if the pattern matches anywhere in the haystack.
